@@ -303,6 +303,7 @@ def parser_tables(mod):
     if not chain:
         raise AnalysisBroken('__printf: no directive word reaches the formatting routines')
     flags, lens, where = {}, {}, {}
+    len_sw, flag_sw = set(), set()
     prec = upper = clear = prec_ld = None
     outer = directive_loop(f)
     for k in sorted(chain):
@@ -316,10 +317,37 @@ def parser_tables(mod):
                 continue
             cases = switch_cases_into(f, i.block)
             if ks[0] == 'const':
+                if not cases and len(i.block.preds) == 1:
+                    # if (*cursor == '.') word |= K;
+                    t = i.block.preds[0].term
+                    cnd = f.inst_of(t.ops[0]) if t.op == 'br' and 'f' in t.d and t.ops[0].k == 'inst' else None
+                    cc = cmp_char(f, cnd) if cnd is not None else None
+                    if cc is not None and cc[2] in ('eq', 'ne') and cc[1] == ord('.') and \
+                            t.d['t' if cc[2] == 'eq' else 'f'] == i.block.name and t.d['t'] != t.d['f']:
+                        prec = ks[1]
+                        prec_ld = cc[0]
+                        where['.'] = i.where()
+                if not cases:
+                    # word = (*cursor == '.') ? word | K : word;      (what simplifycfg makes of the if above)
+                    for u in f.users(V({'k': 'inst', 'id': i.id})):
+                        if u.op != 'select' or u.ops[0].k != 'inst':
+                            continue
+                        cc = cmp_char(f, f.insts[u.ops[0].id])
+                        arm_true = u.ops[1].k == 'inst' and u.ops[1].id == i.id
+                        other = u.ops[2] if arm_true else u.ops[1]
+                        if cc is not None and cc[1] == ord('.') and cc[2] in ('eq', 'ne') and other.key() == x.key() and \
+                                arm_true == (cc[2] == 'eq'):
+                            prec = ks[1]
+                            prec_ld = cc[0]
+                            where['.'] = i.where()
                 for (sw, ch) in cases:
                     # a flag if the switch sits in an inner loop (flags may repeat), else a length modifier
                     nested = [L for L in f.loops if sw.block in L['blocks'] and L is not outer]
                     (flags if nested else lens)[chr(ch)] = ks[1]
+                    if not nested:
+                        len_sw.add(sw.id)
+                    else:
+                        flag_sw.add(sw.id)
                     where[chr(ch)] = i.where()
             else:
                 cc = cmp_char(f, ks[1])
@@ -340,6 +368,7 @@ def parser_tables(mod):
                     # length modifier with a doubled form: 'h' + next char == 'h' ? hh : h
                     for (sw, ch) in cases:
                         if ch == val:
+                            len_sw.add(sw.id)
                             lens[chr(ch) * 2] = k_eq
                             lens[chr(ch)] = k_ne
                             where[chr(ch)] = where[chr(ch) * 2] = i.where()
@@ -353,7 +382,8 @@ def parser_tables(mod):
                     clear = (~o.ival) & 0xffffffff
                     where['<clear>'] = i.where()
     return {'flags': flags, 'prec': prec, 'len': lens, 'upper': upper, 'clear_prec': clear, 'where': where,
-            'prec_load': prec_ld}
+            'prec_load': prec_ld, 'len_switch': f.insts[next(iter(len_sw))] if len(len_sw) == 1 else None,
+            'flag_switch': f.insts[next(iter(flag_sw))] if len(flag_sw) == 1 else None}
 
 
 # ----------------------------------------------------------------------------------------------
@@ -749,6 +779,18 @@ class PEval:
         while v.k == 'inst' and seen < 12:
             seen += 1
             i = self.f.insts[v.id]
+            if i.op == 'select':
+                c = self.ev(i.ops[0])
+                if c is None:
+                    break
+                v = i.ops[1] if c else i.ops[2]
+                continue
+            if i.op == 'phi' and self.reach is not None and i.block in self.reach:
+                live = [o for (bb, o) in i.incoming if (self.f.bmap[bb], i.block) in self.edges]
+                if len(live) != 1:
+                    break
+                v = live[0]
+                continue
             if i.op != 'or':
                 break
             a, b = i.ops
@@ -934,7 +976,10 @@ def atoi_model(sx, st, fn, i, args):
     r = Lin.sym(sx.opq('ext', 'atoi', vkey(p)))
     st.cons.add_le(0, r)
     byte = Lin.sym(sx.opq('byte', p.key()))
-    sx.atoi_tab[next(iter(r.t))] = (r, digit_class_sym(sx, byte))
+    d = digit_class_sym(sx, byte)
+    if st.cons.entails_eq(d, 0):
+        return Lin(0)
+    sx.atoi_tab[next(iter(r.t))] = (r, d)
     return r
 
 
@@ -965,6 +1010,16 @@ class ParserRun:
                           pure_by_args=CLASSIFIERS, models={'atoi': atoi_model})
         sx.atoi_tab = {}
         sx.prune = False
+        dot = T.get('prec_load')
+
+        def on_load(sx_, st_, fn_, i_, p_, v_):
+            # grammar: the character after the width field is not a digit (after a literal width that is what ended the scan,
+            # which the note records as proved; after '*' it is the grammar)
+            if dot is not None and i_.id == dot.id and fn_.name == '__printf':
+                d = digit_class_sym(sx_, v_)
+                st_.notes = st_.notes + (('nondigit-after-width', st_.cons.entails_eq(d, 0)),)
+                st_.cons.add_eq(d, 0)
+        sx.load_hook = on_load
         st = sx.start(f, fmt_args())
         self.rets = sx.run_function(f, st)
         self.states = sx.cut_states.get(swb.name, [])
@@ -1004,14 +1059,38 @@ class ParserRun:
         not a digit: after a literal width that is what ended the scan, after '*' it is the grammar)"""
         sx = self.sx
         ld = self.T.get('prec_load')
+        self.nondigit_proved = {}
         for s in self.states:
-            if ld is not None:
-                b = s.env.get(('i', ld.id))
-                if isinstance(b, Lin):
-                    s.cons.add_eq(digit_class_sym(sx, b), 0)
+            pv = [n[1] for n in s.notes if n[0] == 'nondigit-after-width']
+            self.nondigit_proved[id(s)] = bool(pv) and all(pv)
             for (r, d) in sx.atoi_tab.values():
                 if s.cons.entails_eq(d, 0):
                     s.cons.add_eq(r, 0)
+        # paths that took 'the number is positive' for a text that turned out not to start with a digit do not exist
+        self.states = [s for s in self.states if sx.feasible(s, set(sy for c in s.cons.items for sy in c.t))]
+        if not self.states:
+            raise AnalysisBroken('__printf: no feasible path reaches the switch over the conversion character')
+
+    def star_tests(self):
+        """the loads of the characters compared with '*': [width test, precision test] in dominance order"""
+        f = self.f
+        out = []
+        for i in f.all_insts():
+            if i.op == 'icmp':
+                cc = cmp_char(f, i)
+                if cc is not None and cc[1] == ord('*') and cc[2] in ('eq', 'ne') and cc[0] not in out:
+                    out.append(cc[0])
+        out.sort(key=lambda l: sum(1 for o in out if o is not l and f.dominates(o, l)))
+        return out
+
+    def pos(self, s, ld):
+        """offset in the format of the character read by load ld on the path of state s (Lin) or None"""
+        if ld is None or ld.ops[0].k not in ('inst', 'arg'):
+            return None
+        p = s.env.get(ld.ops[0].key())
+        if isinstance(p, P) and p.base == FMT and ('i', ld.id) in s.env:
+            return p.off
+        return None
 
     def bit(self, s, n):
         """value of bit n of the directive word in state s: 0, 1 or a Lin 0/1 symbol; None when not decomposed"""
@@ -1330,6 +1409,8 @@ class Flags:
             m = self.t['upper']
         else:
             raise KeyError(name)
+        if m is None:
+            return False        # the parser has no such bit (R-OPSBITS reports that): the routines cannot see the flag
         return ctx.bit(self.sym, m, repr(name))
 
 
